@@ -1,4 +1,4 @@
-//@serves C02 C06 C09 C10
+//@serves C02 C06 C09 C10 C11
 //@tier A
 //@include prelude/head.rs
 verus! {
